@@ -220,6 +220,17 @@ class Scenario:
 _SCEN = None
 
 
+def _cap(v, per_prop=4):
+    """keep the first few violations of each property"""
+    out, n = [], collections.Counter()
+    for sig, detail in v:
+        p = sig.split("/")[0]
+        n[p] += 1
+        if n[p] <= per_prop:
+            out.append((sig, detail))
+    return out
+
+
 def _set_scenario(s):
     global _SCEN
     _SCEN = s
@@ -261,7 +272,7 @@ def _expand(task):
         for c in sc.stats(w, op):
             counters[c] += 1
         counters["op:" + str(op[0])] += 1
-        out.append((op, fp, sc.prefix_ok(op) and not v, v[:5]))
+        out.append((op, fp, sc.prefix_ok(op) and not v, _cap(v)))
     return init, history, self_fp, self_viol, out, counters
 
 
